@@ -168,6 +168,18 @@ def check_gmm(run, tier, rng):
                 slack = 1e-12 * (1 + np.abs(X).max())
                 if np.any(g.means_[k] < lo - slack) or np.any(g.means_[k] > hi + slack):
                     run.fail("mean-outside-bounding-box", f"component {k} (weight {float(g.weights_[k])}) mean {g.means_[k]} outside [{lo},{hi}]", **what)
+        # the same values stored as integers (counts, pixel coordinates): the fit is a function of the values, not of the dtype
+        if t % 6 == 5:
+            Xi = np.round(X * 3 / max(1e-12, float(np.std(X)))).astype(np.int64)
+            try:
+                gi = GaussianMixture(n_components=K, covariance_type=ct, random_state=7).fit(Xi, w)
+                gf = GaussianMixture(n_components=K, covariance_type=ct, random_state=7).fit(Xi.astype(float), w)
+                Ci, Cf = np.asarray(gi.covariances_, dtype=float), np.asarray(gf.covariances_, dtype=float)
+                if Ci.shape != Cf.shape or not np.allclose(Ci, Cf, rtol=1e-8, atol=1e-10) or not np.allclose(gi.means_, gf.means_, rtol=1e-8, atol=1e-10):
+                    run.fail("fit-depends-on-dtype", f"GaussianMixture fitted on integer-typed data differs from the fit on the same values as floats: covariances differ by "
+                             f"{float(np.max(np.abs(Ci - Cf))) if Ci.shape == Cf.shape else 'shape'}", **what)
+            except Exception as e:
+                run.fail("gmm-fit-raises", f"fit on integer-typed data raised {type(e).__name__}: {e}", **what)
         # integer weights == replication
         if wk == "integer":
             reps_i = w.astype(int)
